@@ -366,7 +366,9 @@ func (x *Exec) dispatch(st *State, fr *Frame, c *callCtx) {
 				bind[fmt.Sprintf("arg%d", i)] = TV{c.args[k+i], sig.Params().At(i).Type()}
 			}
 		}
+		x.curCallee = calleeName(fn)
 		x.siteAsserts(st, fr, "call", fn.Name(), bind)
+		x.curCallee = ""
 		if st.dead {
 			return
 		}
